@@ -34,14 +34,14 @@ ASSUMPTIONS = [
     'both models are observed with the same snapshot call (same inputs, same RNG seed)',
 ]
 REQUIRED_MONITORS = ['c17.load_keys', 'c17.snapshot_equal', 'c17.crash_roundtrip']
-MIN_NONTRIVIAL = {'quick': 150, 'thorough': 1500}
+MIN_NONTRIVIAL = {'quick': 100, 'thorough': 1500}
 EXHAUSTIVE = {'quick': False, 'thorough': False}
 TIMEOUT = {'quick': 1500, 'thorough': 10000}
 
 
 def cases(tier, seed):
     cs = []
-    n = 300 if tier == 'quick' else 2400
+    n = 200 if tier == 'quick' else 2400
     kinds = ['pit', 'mps-layer', 'mps-channel', 'supernet']
     for i in range(n):
         kind = kinds[i % 4]
